@@ -6,6 +6,7 @@
 -/
 import SLV.Refine.FuseLemmas
 import SLV.Oracle.Fuse
+import Mathlib.Data.List.FinRange
 
 namespace SLV
 open Scalar FuseQ
@@ -99,5 +100,165 @@ theorem wgh_alg (x y : ℚ) {u1 u2 : ℚ} (z1 : u1 ≠ 0) (z2 : u2 ≠ 0) (hc : 
     field_simp; ring
   rw [key]
   constructor <;> (field_simp; try ring)
+
+/-! ### the specification on `List.ofFn` tables -/
+
+/-- belief part of the specification on well-formed operands = the ideal closed form -/
+theorem fuseSimplexSpec_ofFn (op : FuseOp) {b1 b2 : Fin n → ℚ} {u1 u2 : ℚ} (h1 : SWF b1 u1)
+    (h2 : SWF b2 u2) :
+    Oracle.fuseSimplexSpec (toOp op) (List.ofFn b1) u1 (List.ofFn b2) u2
+      = (List.ofFn (idealS op b1 u1 b2 u2).1, (idealS op b1 u1 b2 u2).2) := by
+  unfold Oracle.fuseSimplexSpec idealS
+  by_cases hd : u1 = 0 ∧ u2 = 0
+  · rw [if_pos hd, if_pos hd, meanL_ofFn]
+  rw [if_neg hd, if_neg hd]
+  by_cases z1 : u1 = 0
+  · rw [if_pos z1, if_pos z1]
+  rw [if_neg z1, if_neg z1]
+  by_cases z2 : u2 = 0
+  · rw [if_pos z2, if_pos z2]
+  rw [if_neg z2, if_neg z2]
+  have p1 : 0 < u1 := lt_of_le_of_ne h1.hu (Ne.symm z1)
+  have p2 : 0 < u2 := lt_of_le_of_ne h2.hu (Ne.symm z2)
+  simp only [evidence_ofFn, zipAdd_ofFn, scale_ofFn]
+  cases op
+  case acm =>
+    have ht : u1 + u2 - u1 * u2 ≠ 0 := ne_of_gt (acm_temp_pos p1 h1.u_le_one h2.hu)
+    simp only [toOp, ofEvidence_ofFn, Finset.sum_add_distrib, sum_evidence h1, sum_evidence h2]
+    refine Prod.ext ?_ (acm_alg 0 0 z1 z2 ht).2
+    exact congrArg List.ofFn (funext fun i => (acm_alg (b1 i) (b2 i) z1 z2 ht).1)
+  case ecm =>
+    have ht : u1 + u2 - u1 * u2 ≠ 0 := ne_of_gt (acm_temp_pos p1 h1.u_le_one h2.hu)
+    simp only [toOp, ofEvidence_ofFn, Finset.sum_add_distrib, sum_evidence h1, sum_evidence h2]
+    refine Prod.ext ?_ (acm_alg 0 0 z1 z2 ht).2
+    exact congrArg List.ofFn (funext fun i => (acm_alg (b1 i) (b2 i) z1 z2 ht).1)
+  case avg =>
+    have ht : u1 + u2 ≠ 0 := ne_of_gt (by linarith)
+    simp only [toOp, ofEvidence_ofFn, ← Finset.mul_sum, Finset.sum_add_distrib, sum_evidence h1,
+      sum_evidence h2]
+    refine Prod.ext ?_ (avg_alg 0 0 z1 z2 ht).2
+    exact congrArg List.ofFn (funext fun i => (avg_alg (b1 i) (b2 i) z1 z2 ht).1)
+  case wgh =>
+    simp only [toOp]
+    by_cases hv : u1 = 1 ∧ u2 = 1
+    · rw [if_pos hv, if_pos hv, map_ofFn']
+    rw [if_neg hv, if_neg hv]
+    have c1 := sub_nonneg.mpr h1.u_le_one
+    have c2 := sub_nonneg.mpr h2.u_le_one
+    have hc : (1 - u1) + (1 - u2) ≠ 0 := by
+      intro h
+      exact hv ⟨by linarith, by linarith⟩
+    have ht : u2 * (1 - u1) + u1 * (1 - u2) ≠ 0 := by
+      have hcpos : 0 < (1 - u1) + (1 - u2) := lt_of_le_of_ne (add_nonneg c1 c2) (Ne.symm hc)
+      apply ne_of_gt
+      rcases lt_or_eq_of_le c1 with q | q
+      · have := mul_pos p2 q; have := mul_nonneg p1.le c2; linarith
+      · have q2 : 0 < 1 - u2 := by linarith
+        have := mul_pos p1 q2; have := mul_nonneg p2.le c1; linarith
+    simp only [ofEvidence_ofFn, ← Finset.mul_sum, Finset.sum_add_distrib, sum_evidence h1,
+      sum_evidence h2]
+    refine Prod.ext ?_ (wgh_alg 0 0 z1 z2 hc ht).2
+    exact congrArg List.ofFn (funext fun i => (wgh_alg (b1 i) (b2 i) z1 z2 hc ht).1)
+
+/-- base-rate part of the specification = the ideal closed form (no hypotheses) -/
+theorem fuseBaseRateSpec_ofFn (op : FuseOp) (a1 a2 : Fin n → ℚ) (u1 u2 : ℚ) :
+    Oracle.fuseBaseRateSpec (toOp op) (List.ofFn a1) u1 (List.ofFn a2) u2
+      = List.ofFn (idealA op a1 u1 a2 u2) := by
+  unfold Oracle.fuseBaseRateSpec idealA
+  by_cases hd : u1 = 0 ∧ u2 = 0
+  · rw [if_pos hd, if_pos hd, meanL_ofFn]
+  rw [if_neg hd, if_neg hd]
+  cases op
+  case avg => simp only [toOp, meanL_ofFn]
+  case wgh =>
+    simp only [toOp]
+    split_ifs
+    · exact meanL_ofFn _ _
+    · exact zipWith_ofFn _ _ _
+  all_goals
+    simp only [toOp]
+    split_ifs
+    · exact meanL_ofFn _ _
+    · rw [zipWith_ofFn]
+      exact congrArg List.ofFn (funext fun i => (acmA_eq a1 a2 u1 u2 i).symm)
+
+/-! ### uncertainty maximisation -/
+
+theorem minQ_eq_min (a b : ℚ) : Oracle.minQ a b = min a b := by
+  unfold Oracle.minQ; split
+  · rw [min_eq_left ‹_›]
+  · rw [min_eq_right (le_of_lt (not_le.mp ‹_›))]
+
+/-- the specification's `maxUQ` (skip entries with `a i ≤ 0`) agrees with the model's closed form `uhat`
+    (skip entries with `|a i| ≤ ε`) when no base-rate entry lies in the guard band (0, ε] -/
+theorem maxUQ_ofFn (b a : Fin n → ℚ) (u : ℚ) (ha : ∀ i, a i = 0 ∨ f.eps < a i) :
+    Oracle.maxUQ (List.ofFn b) u (List.ofFn a) = uhat f b a u := by
+  have he := XQ.eps_pos f
+  unfold Oracle.maxUQ uhat foldMin
+  rw [projQ_ofFn]
+  show List.foldl _ 1 (List.zipWith Prod.mk (List.ofFn _) (List.ofFn a)) = _
+  rw [zipWith_ofFn, List.ofFn_eq_map, List.foldl_map]
+  have key : ∀ (l : List (Fin n)) (acc : ℚ), acc ≤ 1 →
+      l.foldl (fun acc i => if (b i + a i * u, a i).2 > 0 then
+          Oracle.minQ acc ((b i + a i * u, a i).1 / (b i + a i * u, a i).2) else acc) acc
+        = l.foldl (fun acc i => min acc (cand f b a u i)) acc := by
+    intro l
+    induction l with
+    | nil => intro acc _; rfl
+    | cons i l ih =>
+      intro acc hacc
+      rw [List.foldl_cons, List.foldl_cons]
+      have step : (if (b i + a i * u, a i).2 > 0 then
+          Oracle.minQ acc ((b i + a i * u, a i).1 / (b i + a i * u, a i).2) else acc)
+            = min acc (cand f b a u i) := by
+        unfold cand
+        rcases ha i with h0 | hpos
+        · simp only [h0, gt_iff_lt, lt_self_iff_false, if_false, abs_zero, he.le, if_true]
+          exact (min_eq_left hacc).symm
+        · have hp : 0 < a i := lt_trans he hpos
+          rw [if_pos hp, if_neg (by rw [abs_of_pos hp]; exact not_le.mpr hpos), minQ_eq_min]
+      rw [step]
+      exact ih _ (le_trans (min_le_left _ _) hacc)
+  exact key _ 1 (le_refl _)
+
+theorem umaxSpec_ofFn (b a : Fin n → ℚ) (u : ℚ) (ha : ∀ i, a i = 0 ∨ f.eps < a i) :
+    Oracle.umaxSpec (List.ofFn b) u (List.ofFn a) = (List.ofFn (bmax f b a u), uhat f b a u) := by
+  unfold Oracle.umaxSpec
+  simp only [maxUQ_ofFn (f := f) b a u ha, projQ_ofFn, zipWith_ofFn]
+  rfl
+
+/-! ### the complete specification -/
+
+theorem toOp_eq_ecm (op : FuseOp) : toOp op = .ecm ↔ op = .ecm := by cases op <;> simp [toOp]
+
+theorem specA_ofFn (op : FuseOp) (same : Bool) (a1 a2 : Fin n → ℚ) (u1 u2 : ℚ) :
+    (if same = true then List.ofFn a1
+      else Oracle.fuseBaseRateSpec (toOp op) (List.ofFn a1) u1 (List.ofFn a2) u2)
+      = List.ofFn (if same = true then a1 else idealA op a1 u1 a2 u2) := by
+  rw [fuseBaseRateSpec_ofFn]; split <;> rfl
+
+theorem fuseSpec_ofFn_of_ne_ecm {op : FuseOp} (hop : op ≠ .ecm) (same : Bool) {b1 b2 : Fin n → ℚ}
+    {u1 u2 : ℚ} (h1 : SWF b1 u1) (h2 : SWF b2 u2) (a1 a2 : Fin n → ℚ) :
+    Oracle.fuseSpec (toOp op) same (List.ofFn b1) u1 (List.ofFn a1) (List.ofFn b2) u2 (List.ofFn a2)
+      = (List.ofFn (idealS op b1 u1 b2 u2).1, (idealS op b1 u1 b2 u2).2,
+          List.ofFn (if same = true then a1 else idealA op a1 u1 a2 u2)) := by
+  have hne : ¬ toOp op = .ecm := fun h => hop ((toOp_eq_ecm op).mp h)
+  unfold Oracle.fuseSpec
+  simp only [specA_ofFn, fuseSimplexSpec_ofFn op h1 h2, if_neg hne]
+
+theorem fuseSpec_ofFn_ecm (same : Bool) {b1 b2 : Fin n → ℚ}
+    {u1 u2 : ℚ} (h1 : SWF b1 u1) (h2 : SWF b2 u2) (a1 a2 : Fin n → ℚ)
+    (hband : ∀ i, (if same = true then a1 else idealA .ecm a1 u1 a2 u2) i = 0 ∨
+      f.eps < (if same = true then a1 else idealA .ecm a1 u1 a2 u2) i) :
+    Oracle.fuseSpec (toOp .ecm) same (List.ofFn b1) u1 (List.ofFn a1) (List.ofFn b2) u2 (List.ofFn a2)
+      = (List.ofFn (bmax f (idealS .ecm b1 u1 b2 u2).1
+            (if same = true then a1 else idealA .ecm a1 u1 a2 u2) (idealS .ecm b1 u1 b2 u2).2),
+          uhat f (idealS .ecm b1 u1 b2 u2).1
+            (if same = true then a1 else idealA .ecm a1 u1 a2 u2) (idealS .ecm b1 u1 b2 u2).2,
+          List.ofFn (if same = true then a1 else idealA .ecm a1 u1 a2 u2)) := by
+  have he : toOp .ecm = Oracle.Op.ecm := rfl
+  unfold Oracle.fuseSpec
+  simp only [specA_ofFn, fuseSimplexSpec_ofFn .ecm h1 h2, if_pos he,
+    umaxSpec_ofFn (f := f) _ _ _ hband]
 
 end SLV
